@@ -570,3 +570,497 @@ Proof.
   destruct (run_commutes ops 1%N empty_core L HR Hv H) as (P & E & Hs & HR'). exists P. split; [exact E|].
   rewrite (finish_is_strip _ _ P HR'). exact Hs.
 Qed.
+
+(* ------------------------------------------------------------------ strictly sorted lists of names *)
+Fixpoint ssorted (l : list N) : Prop :=
+  match l with
+  | [] => True
+  | x :: r => (forall y, In y r -> (x < y)%N) /\ ssorted r
+  end.
+
+Lemma insert_sorted_ssorted x l : ssorted l -> ~ In x l -> ssorted (insert_sorted x l).
+Proof.
+  induction l as [|y r IH]; intros Hs Hn; [cbn; split; [intros ? []|exact I]|]. destruct Hs as [Hy Hr]. cbn [insert_sorted].
+  destruct (N.leb_spec x y) as [Hle|Hgt].
+  - assert (x < y)%N by (assert (x <> y) by (intros ->; apply Hn; left; reflexivity); lia).
+    cbn [ssorted]. split; [|split; assumption]. intros z [<-|Hz]; [assumption|]. specialize (Hy z Hz). lia.
+  - cbn [ssorted]. split.
+    + intros z Hz. apply in_insert_sorted in Hz. destruct Hz as [->|Hz]; [exact Hgt|apply Hy; exact Hz].
+    + apply IH; [exact Hr|]. intros H. apply Hn. right. exact H.
+Qed.
+
+Lemma dedup_nodup l : NoDup (dedup l).
+Proof.
+  induction l as [|x r IH]; [constructor|]. cbn [dedup]. destruct (mem_n x r) eqn:E; [exact IH|].
+  constructor; [|exact IH]. rewrite in_dedup. intros H. apply mem_n_in in H. congruence.
+Qed.
+
+Lemma sort_n_ssorted l : NoDup l -> ssorted (sort_n l).
+Proof.
+  induction l as [|x r IH]; intros Hn; [exact I|]. apply NoDup_cons_iff in Hn. destruct Hn as [Hx Hr].
+  unfold sort_n. cbn [fold_right]. apply insert_sorted_ssorted; [apply IH; exact Hr|]. fold (sort_n r). rewrite in_sort_n. exact Hx.
+Qed.
+
+Lemma ssorted_nodup l : ssorted l -> NoDup l.
+Proof.
+  induction l as [|x r IH]; intros Hs; [constructor|]. destruct Hs as [Hx Hr]. constructor; [|apply IH; exact Hr].
+  intros H. specialize (Hx x H). lia.
+Qed.
+
+Lemma dedup_id l : NoDup l -> dedup l = l.
+Proof.
+  induction l as [|x r IH]; intros Hn; [reflexivity|]. apply NoDup_cons_iff in Hn. destruct Hn as [Hx Hr]. cbn [dedup].
+  destruct (mem_n x r) eqn:E; [apply mem_n_in in E; contradiction|]. rewrite IH by exact Hr. reflexivity.
+Qed.
+
+Lemma sort_n_id l : ssorted l -> sort_n l = l.
+Proof.
+  induction l as [|x r IH]; intros Hs; [reflexivity|]. destruct Hs as [Hx Hr]. unfold sort_n. cbn [fold_right]. fold (sort_n r).
+  rewrite IH by exact Hr. destruct r as [|y t]; [reflexivity|]. cbn [insert_sorted]. specialize (Hx y (or_introl eq_refl)).
+  destruct (N.leb_spec x y); [reflexivity|lia].
+Qed.
+
+Lemma normal_id l : ssorted l -> sort_n (dedup l) = l.
+Proof. intros Hs. rewrite dedup_id by (apply ssorted_nodup; exact Hs). apply sort_n_id. exact Hs. Qed.
+
+Lemma normal_ssorted l : ssorted (sort_n (dedup l)).
+Proof. apply sort_n_ssorted. apply dedup_nodup. Qed.
+
+Lemma ssorted_filter f l : ssorted l -> ssorted (filter f l).
+Proof.
+  induction l as [|x r IH]; intros Hs; [exact I|]. destruct Hs as [Hx Hr]. cbn [filter]. destruct (f x); [|apply IH; exact Hr].
+  split; [|apply IH; exact Hr]. intros y Hy. apply filter_In in Hy. apply Hx. apply Hy.
+Qed.
+
+(* ------------------------------------------------------------------ invariants of live states *)
+Definition part_ok (p : part) : Prop := p_pausedp p = p_paused p /\ p_ro p = p_rop p.
+Definition PInv (c : core) : Prop := forall k st, In (k, st) (c_streams c) -> Forall part_ok (st_parts st).
+Definition MInv (c : core) : Prop :=
+  forall g gr m, In (g, gr) (c_groups c) -> In m (g_members (gr_g gr)) -> ssorted (m_streams m).
+Definition NoTomb (c : core) : Prop := forall k st, In (k, st) (c_streams c) -> st_tomb st = false.
+
+Lemma Forall_set_part (Q : part -> Prop) ps i q : Forall Q ps -> Q q -> Forall Q (set_part ps i q).
+Proof.
+  revert i. induction ps as [|p r IH]; intros i Hf Hq; [destruct i; constructor|]. inversion Hf as [|? ? Hp Hr]; subst.
+  destruct i as [|j]; cbn [set_part]; constructor; auto.
+Qed.
+
+Lemma nth_part_Forall (Q : part -> Prop) ps i q : Forall Q ps -> nth_part ps i = Some q -> Q q.
+Proof.
+  revert i. induction ps as [|p r IH]; intros i Hf H; [destruct i; discriminate|]. inversion Hf as [|? ? Hp Hr]; subst.
+  destruct i as [|j]; cbn [nth_part] in H; [injection H as <-; exact Hp|apply (IH j); assumption].
+Qed.
+
+Lemma Forall_map_parts (Q : part -> Prop) f ids ps : (forall p, Q p -> Q (f p)) -> Forall Q ps -> Forall Q (map_parts f ids ps).
+Proof.
+  intros Hf. unfold map_parts. revert ps. induction ids as [|i r IH]; intros ps Hp; [exact Hp|]. cbn [fold_left]. apply IH.
+  destruct (nth_part ps (Z.to_nat i)) as [p|] eqn:E; [|exact Hp]. apply Forall_set_part; [exact Hp|]. apply Hf. apply (nth_part_Forall Q ps _ p Hp E).
+Qed.
+
+Lemma new_parts_ok n reps idx : Forall part_ok (new_parts n reps idx).
+Proof. unfold new_parts. apply Forall_forall. intros p Hp. apply in_map_iff in Hp. destruct Hp as (i & <- & _). split; reflexivity. Qed.
+
+Lemma PInv_with_stream c s f c' : PInv c ->
+  (forall st st', f st = Some st' -> Forall part_ok (st_parts st) -> Forall part_ok (st_parts st')) ->
+  with_stream c s f = Some c' -> PInv c'.
+Proof.
+  intros Hp Hf H. unfold with_stream in H. destruct (alookup s (c_streams c)) as [st|] eqn:E; [|discriminate].
+  destruct (f st) as [st'|] eqn:Ef; [|discriminate]. injection H as <-. intros k st0 Hin. cbn [c_streams] in Hin.
+  apply in_aset in Hin. destruct Hin as [[-> ->]|[Hin _]]; [|apply (Hp k); exact Hin].
+  apply (Hf st _ Ef). apply (Hp s). apply alookup_in. exact E.
+Qed.
+
+Lemma PInv_step r idx c o c' : PInv c -> apply_core fixed r idx c o = Some c' -> PInv c'.
+Proof.
+  intros Hp H. destruct o as [s n reps|s|s ps ra|s ps|s ps ro|s p rr|s p rr|s p l|g coord cn ss|g cn ss|g cn|g coord|i]; cbn [apply_core] in H.
+  - destruct n as [|n]; [discriminate|]. destruct reps as [|b reps]; [discriminate|].
+    assert (Hnew : forall c0, PInv c0 -> PInv (add_stream c0 s (new_parts (S n) (b :: reps) idx))).
+    { intros c0 H0 k st Hin. cbn [add_stream c_streams] in Hin. apply in_aset in Hin. destruct Hin as [[-> ->]|[Hin _]]; [apply new_parts_ok|apply (H0 k); exact Hin]. }
+    destruct (alookup s (c_streams c)) as [st|]; [|injection H as <-; apply Hnew; exact Hp].
+    destruct (r && st_tomb st); [|discriminate]. injection H as <-. apply Hnew. intros k st0 Hin. cbn [remove_stream c_streams] in Hin.
+    apply in_aremove in Hin. apply (Hp k). apply Hin.
+  - destruct (alookup s (c_streams c)) as [st|] eqn:E; [|discriminate]. destruct r; injection H as <-.
+    + intros k st0 Hin. cbn [c_streams] in Hin. apply in_aset in Hin. destruct Hin as [[-> ->]|[Hin _]]; [|apply (Hp k); exact Hin].
+      cbn [st_parts]. apply (Hp s). apply alookup_in. exact E.
+    + intros k st0 Hin. cbn [remove_stream c_streams] in Hin. apply in_aremove in Hin. apply (Hp k). apply Hin.
+  - refine (PInv_with_stream c s _ c' Hp _ H). intros st st'. destruct (forallb _ ps); [|discriminate]. intros [= <-] Hf. cbn [st_parts].
+    apply Forall_map_parts; [|exact Hf]. intros p [H1 H2]. split; [reflexivity|exact H2].
+  - refine (PInv_with_stream c s _ c' Hp _ H). intros st st'. destruct (forallb _ ps); [|discriminate]. intros [= <-] Hf. cbn [st_parts].
+    apply Forall_map_parts; [|exact Hf]. intros p Hok. unfold resume_part. destruct (p_paused p); [split; reflexivity|exact Hok].
+  - refine (PInv_with_stream c s _ c' Hp _ H). intros st st'. destruct (forallb _ ps); [|discriminate]. intros [= <-] Hf. cbn [st_parts].
+    apply Forall_map_parts; [|exact Hf]. intros p [H1 H2]. split; [exact H1|reflexivity].
+  - unfold with_part in H. refine (PInv_with_stream c s _ c' Hp _ H). intros st st'. destruct (valid_pid _ _); [|discriminate].
+    destruct (nth_part _ _) as [q|] eqn:En; [|discriminate]. intros Hq Hf. pose proof (nth_part_Forall _ _ _ _ Hf En) as [Hq1 Hq2].
+    destruct (idx <=? p_epoch q)%N; [injection Hq as <-; apply Forall_set_part; [exact Hf|split; assumption]|].
+    destruct (mem_n rr (p_replicas q)); [|discriminate]. injection Hq as <-. apply Forall_set_part; [exact Hf|split; assumption].
+  - unfold with_part in H. refine (PInv_with_stream c s _ c' Hp _ H). intros st st'. destruct (valid_pid _ _); [|discriminate].
+    destruct (nth_part _ _) as [q|] eqn:En; [|discriminate]. intros Hq Hf. pose proof (nth_part_Forall _ _ _ _ Hf En) as [Hq1 Hq2].
+    destruct (idx <=? p_epoch q)%N; [injection Hq as <-; apply Forall_set_part; [exact Hf|split; assumption]|].
+    destruct (mem_n rr (p_replicas q)); [|discriminate]. injection Hq as <-. apply Forall_set_part; [exact Hf|split; assumption].
+  - unfold with_part in H. refine (PInv_with_stream c s _ c' Hp _ H). intros st st'. destruct (valid_pid _ _); [|discriminate].
+    destruct (nth_part _ _) as [q|] eqn:En; [|discriminate]. intros Hq Hf. pose proof (nth_part_Forall _ _ _ _ Hf En) as [Hq1 Hq2].
+    destruct (idx <=? p_epoch q)%N; [injection Hq as <-; apply Forall_set_part; [exact Hf|split; assumption]|].
+    destruct (idx <? p_lepoch q)%N; [discriminate|]. injection Hq as <-. apply Forall_set_part; [exact Hf|split; assumption].
+  - destruct (alookup g (c_groups c)); [discriminate|]. destruct (add_member _ _ _ _ _); try discriminate. injection H as <-. exact Hp.
+  - destruct (alookup g (c_groups c)); [|discriminate]. destruct (add_member _ _ _ _ _); try discriminate. injection H as <-. exact Hp.
+  - destruct (alookup g (c_groups c)); [|discriminate]. destruct (remove_member _ _ _ _) as [g'| |]; try discriminate. injection H as <-.
+    destruct (g_members g'); exact Hp.
+  - destruct (alookup g (c_groups c)) as [gr|]; [|discriminate]. destruct (idx <=? g_epoch (gr_g gr))%N; injection H as <-; exact Hp.
+  - injection H as <-. exact Hp.
+Qed.
+
+Definition members_sorted (g : group) : Prop := forall m, In m (g_members g) -> ssorted (m_streams m).
+
+Lemma stream_deleted_sorted np g s e g' : members_sorted g -> stream_deleted np g s e = GOk g' -> members_sorted g'.
+Proof.
+  intros Hs. unfold stream_deleted. destruct (e <? g_epoch g)%N; [discriminate|].
+  destruct (negb (existsb (subscribes s) (g_members g))); intros [= <-]; [exact Hs|].
+  intros m' Hm'. cbn [g_members] in Hm'. apply in_map_iff in Hm'. destruct Hm' as (m & <- & Hm). cbn [m_streams].
+  apply ssorted_filter. apply Hs. exact Hm.
+Qed.
+
+Lemma notify_sorted np s e gs : (forall g gr, In (g, gr) gs -> members_sorted (gr_g gr)) ->
+  forall g gr, In (g, gr) (notify_deleted np s e gs) -> members_sorted (gr_g gr).
+Proof.
+  intros H g gr' Hin. apply in_notify in Hin. destruct Hin as (gr & Hin & ->). unfold notify_group.
+  destruct (stream_deleted np (gr_g gr) s e) as [g'| |] eqn:E; [|apply (H g); exact Hin|apply (H g); exact Hin].
+  cbn [gr_g]. apply (stream_deleted_sorted np (gr_g gr) s e g'); [apply (H g); exact Hin|exact E].
+Qed.
+
+Lemma MInv_step r idx c o c' : MInv c -> apply_core fixed r idx c o = Some c' -> MInv c'.
+Proof.
+  unfold MInv. intros Hm H.
+  assert (Hm' : forall g gr, In (g, gr) (c_groups c) -> members_sorted (gr_g gr)) by (intros g gr Hin m Hi; apply (Hm g gr m Hin Hi)).
+  assert (Goal' : (forall g gr, In (g, gr) (c_groups c') -> members_sorted (gr_g gr)) -> forall g gr m, In (g, gr) (c_groups c') -> In m (g_members (gr_g gr)) -> ssorted (m_streams m))
+    by (intros G g gr m Hin Hi; apply (G g gr Hin m Hi)).
+  apply Goal'. clear Goal' Hm.
+  destruct o as [s n reps|s|s ps ra|s ps|s ps ro|s p rr|s p rr|s p l|g coord cn ss|g cn ss|g cn|g coord|i]; cbn [apply_core] in H.
+  - destruct n as [|n]; [discriminate|]. destruct reps as [|b reps]; [discriminate|].
+    destruct (alookup s (c_streams c)) as [st|]; [|injection H as <-; exact Hm'].
+    destruct (r && st_tomb st); [|discriminate]. injection H as <-. cbn [add_stream remove_stream c_groups]. apply notify_sorted. exact Hm'.
+  - destruct (alookup s (c_streams c)) as [st|]; [|discriminate]. destruct r; injection H as <-; cbn [fixed v_notify remove_stream c_groups]; apply notify_sorted; exact Hm'.
+  - unfold with_stream in H. destruct (alookup s (c_streams c)) as [st|]; [|discriminate]. destruct (if forallb _ ps then _ else _); [|discriminate]. injection H as <-. exact Hm'.
+  - unfold with_stream in H. destruct (alookup s (c_streams c)) as [st|]; [|discriminate]. destruct (if forallb _ ps then _ else _); [|discriminate]. injection H as <-. exact Hm'.
+  - unfold with_stream in H. destruct (alookup s (c_streams c)) as [st|]; [|discriminate]. destruct (if forallb _ ps then _ else _); [|discriminate]. injection H as <-. exact Hm'.
+  - unfold with_part, with_stream in H. destruct (alookup s (c_streams c)) as [st|]; [|discriminate]. destruct (if valid_pid _ p then _ else _); [|discriminate]. injection H as <-. exact Hm'.
+  - unfold with_part, with_stream in H. destruct (alookup s (c_streams c)) as [st|]; [|discriminate]. destruct (if valid_pid _ p then _ else _); [|discriminate]. injection H as <-. exact Hm'.
+  - unfold with_part, with_stream in H. destruct (alookup s (c_streams c)) as [st|]; [|discriminate]. destruct (if valid_pid _ p then _ else _); [|discriminate]. injection H as <-. exact Hm'.
+  - destruct (alookup g (c_groups c)); [discriminate|]. destruct (add_member _ _ _ _ _) as [g'| |] eqn:Ea; try discriminate. injection H as <-.
+    intros g0 gr0 Hin. cbn [set_group c_groups] in Hin. apply in_aset in Hin. destruct Hin as [[-> ->]|[Hin _]]; [|apply (Hm' g0); exact Hin].
+    cbn [gr_g]. destruct (add_member_shape _ _ _ _ _ _ Ea) as [Hmm _]. intros m Hi. rewrite Hmm in Hi. cbn in Hi. destruct Hi as [<-|[]]. apply normal_ssorted.
+  - destruct (alookup g (c_groups c)) as [gr|] eqn:Eg; [|discriminate]. destruct (add_member _ _ _ _ _) as [g'| |] eqn:Ea; try discriminate. injection H as <-.
+    intros g0 gr0 Hin. cbn [set_group c_groups] in Hin. apply in_aset in Hin. destruct Hin as [[-> ->]|[Hin _]]; [|apply (Hm' g0); exact Hin].
+    cbn [gr_g]. destruct (add_member_shape _ _ _ _ _ _ Ea) as [Hmm _]. intros m Hi. rewrite Hmm in Hi. apply in_app_or in Hi.
+    destruct Hi as [Hi|[<-|[]]]; [apply (Hm' g gr (alookup_in _ _ _ Eg)); exact Hi|apply normal_ssorted].
+  - destruct (alookup g (c_groups c)) as [gr|] eqn:Eg; [|discriminate]. destruct (remove_member _ _ _ _) as [g'| |] eqn:Er; try discriminate. injection H as <-.
+    destruct (remove_member_shape _ _ _ _ _ Er) as [Hmm _].
+    assert (Hg' : members_sorted g').
+    { intros m Hi. rewrite Hmm in Hi. apply filter_In in Hi. apply (Hm' g gr (alookup_in _ _ _ Eg)). apply Hi. }
+    destruct (g_members g') eqn:Em.
+    + intros g0 gr0 Hin. cbn [c_groups] in Hin. apply in_aremove in Hin. apply (Hm' g0). apply Hin.
+    + intros g0 gr0 Hin. cbn [set_group c_groups] in Hin. apply in_aset in Hin. destruct Hin as [[-> ->]|[Hin _]]; [|apply (Hm' g0); exact Hin].
+      cbn [gr_g]. intros m0 Hi. apply Hg'. exact Hi.
+  - destruct (alookup g (c_groups c)) as [gr|] eqn:Eg; [|discriminate]. destruct (idx <=? g_epoch (gr_g gr))%N; injection H as <-; [exact Hm'|].
+    intros g0 gr0 Hin. cbn [set_group c_groups] in Hin. apply in_aset in Hin. destruct Hin as [[-> ->]|[Hin _]]; [|apply (Hm' g0); exact Hin].
+    cbn [gr_g]. intros m Hi. cbn [g_members] in Hi. apply (Hm' g gr (alookup_in _ _ _ Eg)). exact Hi.
+  - injection H as <-. exact Hm'.
+Qed.
+
+(* ------------------------------------------------------------------ states that agree on everything but the assignments *)
+Definition gp (g : group) : list member * N := (g_members g, g_epoch g).
+Definition geq (a b : gid * grp) : Prop := fst a = fst b /\ gr_coord (snd a) = gr_coord (snd b) /\ gp (gr_g (snd a)) = gp (gr_g (snd b)).
+Definition core_eqv (c1 c2 : core) : Prop := c_streams c1 = c_streams c2 /\ Forall2 geq (c_groups c1) (c_groups c2).
+
+Lemma gp_eq g1 g2 : gp g1 = gp g2 -> g_members g1 = g_members g2 /\ g_epoch g1 = g_epoch g2.
+Proof. unfold gp. intros [= H1 H2]. split; assumption. Qed.
+
+Lemma add_member_cong np1 np2 g1 g2 c ss e : gp g1 = gp g2 ->
+  match add_member np1 g1 c ss e, add_member np2 g2 c ss e with
+  | GOk a, GOk b => gp a = gp b
+  | GRefused, GRefused => True
+  | _, _ => False
+  end.
+Proof.
+  intros H. apply gp_eq in H. destruct H as [Hm He]. unfold add_member. rewrite He. destruct (e <? g_epoch g2)%N; [exact I|].
+  unfold gp. cbn [g_members g_epoch]. rewrite Hm. reflexivity.
+Qed.
+
+Lemma remove_member_cong np1 np2 g1 g2 c e : gp g1 = gp g2 ->
+  match remove_member np1 g1 c e, remove_member np2 g2 c e with
+  | GOk a, GOk b => gp a = gp b
+  | GRefused, GRefused => True
+  | GNotMember, GNotMember => True
+  | _, _ => False
+  end.
+Proof.
+  intros H. apply gp_eq in H. destruct H as [Hm He]. unfold remove_member. rewrite He, Hm. destruct (e <? g_epoch g2)%N; [exact I|].
+  destruct (find _ (g_members g2)); [|exact I]. unfold gp. cbn [g_members g_epoch]. reflexivity.
+Qed.
+
+Lemma stream_deleted_cong np1 np2 g1 g2 s e : gp g1 = gp g2 ->
+  match stream_deleted np1 g1 s e, stream_deleted np2 g2 s e with
+  | GOk a, GOk b => gp a = gp b
+  | GRefused, GRefused => True
+  | _, _ => False
+  end.
+Proof.
+  intros H. pose proof H as H0. apply gp_eq in H. destruct H as [Hm He]. unfold stream_deleted. rewrite He, Hm. destruct (e <? g_epoch g2)%N; [exact I|].
+  destruct (negb (existsb (subscribes s) (g_members g2))); [exact H0|]. unfold gp. cbn [g_members g_epoch]. reflexivity.
+Qed.
+
+Lemma alookup_eqv g l1 l2 : Forall2 geq l1 l2 ->
+  match alookup g l1, alookup g l2 with
+  | Some a, Some b => gr_coord a = gr_coord b /\ gp (gr_g a) = gp (gr_g b)
+  | None, None => True
+  | _, _ => False
+  end.
+Proof.
+  induction 1 as [|[k1 a] [k2 b] r1 r2 (Hk & Hc & Hg) _ IH]; [exact I|]. cbn [fst snd] in *. subst k2. cbn [alookup].
+  destruct (N.eqb k1 g); [split; assumption|exact IH].
+Qed.
+
+Lemma aremove_eqv g l1 l2 : Forall2 geq l1 l2 -> Forall2 geq (aremove g l1) (aremove g l2).
+Proof.
+  induction 1 as [|[k1 a] [k2 b] r1 r2 Hg _ IH]; [constructor|]. pose proof Hg as (Hk & _). cbn [fst] in Hk. subst k2. cbn [aremove].
+  destruct (N.eqb k1 g); [exact IH|constructor; assumption].
+Qed.
+
+Lemma aset_eqv g a b l1 l2 : Forall2 geq l1 l2 -> gr_coord a = gr_coord b -> gp (gr_g a) = gp (gr_g b) ->
+  Forall2 geq (aset g a l1) (aset g b l2).
+Proof. intros H Hc Hg. unfold aset. constructor; [split; [reflexivity|split; assumption]|apply aremove_eqv; exact H]. Qed.
+
+Lemma notify_eqv np1 np2 s e l1 l2 : Forall2 geq l1 l2 -> Forall2 geq (notify_deleted np1 s e l1) (notify_deleted np2 s e l2).
+Proof.
+  induction 1 as [|[k1 a] [k2 b] r1 r2 (Hk & Hc & Hg) _ IH]; [constructor|]. cbn [fst snd] in *. subst k2. unfold notify_deleted. cbn [map fst snd].
+  constructor; [|exact IH]. split; [reflexivity|]. cbn [snd]. unfold notify_group.
+  pose proof (stream_deleted_cong np1 np2 (gr_g a) (gr_g b) s e Hg) as Hsd.
+  destruct (stream_deleted np1 (gr_g a) s e), (stream_deleted np2 (gr_g b) s e); try contradiction; cbn [gr_coord gr_g]; split; assumption.
+Qed.
+
+Lemma with_stream_eqv c1 c2 s f c1' : core_eqv c1 c2 -> with_stream c1 s f = Some c1' ->
+  exists c2', with_stream c2 s f = Some c2' /\ core_eqv c1' c2'.
+Proof.
+  intros [Hs Hg] H. unfold with_stream in *. rewrite <- Hs. destruct (alookup s (c_streams c1)); [|discriminate].
+  destruct (f s0); [|discriminate]. injection H as <-. eexists. split; [reflexivity|]. split; [reflexivity|exact Hg].
+Qed.
+
+Lemma forallb_exists_eqv c1 c2 ss : c_streams c1 = c_streams c2 -> forallb (stream_exists c1) ss = forallb (stream_exists c2) ss.
+Proof. intros H. unfold stream_exists. rewrite H. reflexivity. Qed.
+
+Lemma pre_eqv c1 c2 o : core_eqv c1 c2 -> pre c1 o = pre c2 o.
+Proof.
+  intros [Hs Hg]. destruct o as [s n reps|s|s ps ra|s ps|s ps ro|s p rr|s p rr|s p l|g coord cn ss|g cn ss|g cn|g coord|i]; cbn [pre];
+    unfold stream_exists, part_of; rewrite <- ?Hs; try reflexivity.
+  - pose proof (alookup_eqv g _ _ Hg) as H. destruct (alookup g (c_groups c1)), (alookup g (c_groups c2)); try contradiction; reflexivity.
+  - pose proof (alookup_eqv g _ _ Hg) as H. destruct (alookup g (c_groups c1)), (alookup g (c_groups c2)); try contradiction; [|reflexivity].
+    destruct H as [_ H]. apply gp_eq in H. destruct H as [-> _]. reflexivity.
+  - pose proof (alookup_eqv g _ _ Hg) as H. destruct (alookup g (c_groups c1)), (alookup g (c_groups c2)); try contradiction; [|reflexivity].
+    destruct H as [_ H]. apply gp_eq in H. destruct H as [-> _]. reflexivity.
+  - pose proof (alookup_eqv g _ _ Hg) as H. destruct (alookup g (c_groups c1)), (alookup g (c_groups c2)); try contradiction; reflexivity.
+Qed.
+
+Lemma apply_eqv r idx c1 c2 o c1' : core_eqv c1 c2 -> apply_core fixed r idx c1 o = Some c1' ->
+  exists c2', apply_core fixed r idx c2 o = Some c2' /\ core_eqv c1' c2'.
+Proof.
+  intros He H. pose proof He as [Hs Hg].
+  destruct o as [s n reps|s|s ps ra|s ps|s ps ro|s p rr|s p rr|s p l|g coord cn ss|g cn ss|g cn|g coord|i]; cbn [apply_core] in *.
+  - destruct n as [|n]; [discriminate|]. destruct reps as [|b reps]; [discriminate|]. rewrite <- Hs.
+    destruct (alookup s (c_streams c1)) as [st|].
+    + destruct (r && st_tomb st); [|discriminate]. injection H as <-. eexists. split; [reflexivity|].
+      unfold add_stream, remove_stream. cbn [c_streams c_groups]. rewrite <- Hs. split; [reflexivity|]. apply notify_eqv. exact Hg.
+    + injection H as <-. eexists. split; [reflexivity|]. unfold add_stream. cbn [c_streams c_groups]. rewrite <- Hs. split; [reflexivity|exact Hg].
+  - rewrite <- Hs. destruct (alookup s (c_streams c1)) as [st|]; [|discriminate]. destruct r; injection H as <-; (eexists; split; [reflexivity|]).
+    + cbn [fixed v_notify c_streams c_groups]. split; [reflexivity|]. apply notify_eqv. exact Hg.
+    + unfold remove_stream. cbn [c_streams c_groups]. rewrite <- Hs. split; [reflexivity|]. apply notify_eqv. exact Hg.
+  - apply (with_stream_eqv c1 c2 s _ c1' He H).
+  - apply (with_stream_eqv c1 c2 s _ c1' He H).
+  - apply (with_stream_eqv c1 c2 s _ c1' He H).
+  - unfold with_part in *. apply (with_stream_eqv c1 c2 s _ c1' He H).
+  - unfold with_part in *. apply (with_stream_eqv c1 c2 s _ c1' He H).
+  - unfold with_part in *. apply (with_stream_eqv c1 c2 s _ c1' He H).
+  - pose proof (alookup_eqv g _ _ Hg) as Ha. destruct (alookup g (c_groups c1)); [discriminate|]. destruct (alookup g (c_groups c2)); [contradiction|].
+    pose proof (add_member_cong (nparts_of (c_streams c1)) (nparts_of (c_streams c2)) new_group new_group cn ss 0%N eq_refl) as Hc.
+    destruct (add_member (nparts_of (c_streams c1)) new_group cn ss 0%N) as [a| |]; try discriminate. injection H as <-.
+    destruct (add_member (nparts_of (c_streams c2)) new_group cn ss 0%N) as [b| |]; try contradiction.
+    eexists. split; [reflexivity|]. split; [exact Hs|]. cbn [set_group c_groups]. apply aset_eqv; [exact Hg|reflexivity|exact Hc].
+  - pose proof (alookup_eqv g _ _ Hg) as Ha. destruct (alookup g (c_groups c1)) as [gr1|]; [|discriminate]. destruct (alookup g (c_groups c2)) as [gr2|]; [|contradiction].
+    destruct Ha as [Hco Hgp].
+    pose proof (add_member_cong (nparts_of (c_streams c1)) (nparts_of (c_streams c2)) (gr_g gr1) (gr_g gr2) cn ss idx Hgp) as Hc.
+    destruct (add_member (nparts_of (c_streams c1)) (gr_g gr1) cn ss idx) as [a| |]; try discriminate. injection H as <-.
+    destruct (add_member (nparts_of (c_streams c2)) (gr_g gr2) cn ss idx) as [b| |]; try contradiction.
+    eexists. split; [reflexivity|]. split; [exact Hs|]. cbn [set_group c_groups]. apply aset_eqv; [exact Hg|exact Hco|exact Hc].
+  - pose proof (alookup_eqv g _ _ Hg) as Ha. destruct (alookup g (c_groups c1)) as [gr1|]; [|discriminate]. destruct (alookup g (c_groups c2)) as [gr2|]; [|contradiction].
+    destruct Ha as [Hco Hgp].
+    pose proof (remove_member_cong (nparts_of (c_streams c1)) (nparts_of (c_streams c2)) (gr_g gr1) (gr_g gr2) cn idx Hgp) as Hc.
+    destruct (remove_member (nparts_of (c_streams c1)) (gr_g gr1) cn idx) as [a| |]; try discriminate. injection H as <-.
+    destruct (remove_member (nparts_of (c_streams c2)) (gr_g gr2) cn idx) as [b| |]; try contradiction.
+    pose proof (gp_eq _ _ Hc) as [Hm _]. rewrite <- Hm.
+    eexists. split; [reflexivity|]. destruct (g_members a).
+    + split; [exact Hs|]. cbn [c_groups]. apply aremove_eqv. exact Hg.
+    + split; [exact Hs|]. cbn [set_group c_groups]. apply aset_eqv; [exact Hg|exact Hco|exact Hc].
+  - pose proof (alookup_eqv g _ _ Hg) as Ha. destruct (alookup g (c_groups c1)) as [gr1|]; [|discriminate]. destruct (alookup g (c_groups c2)) as [gr2|]; [|contradiction].
+    destruct Ha as [Hco Hgp]. pose proof (gp_eq _ _ Hgp) as [Hm Hep]. rewrite <- Hep.
+    destruct (idx <=? g_epoch (gr_g gr1))%N; injection H as <-; (eexists; split; [reflexivity|]); [exact He|].
+    split; [exact Hs|]. cbn [set_group c_groups]. apply aset_eqv; [exact Hg|reflexivity|]. unfold gp. cbn [gr_g g_members g_epoch]. rewrite Hm. reflexivity.
+  - injection H as <-. exists c2. split; [reflexivity|exact He].
+Qed.
+
+Lemma run_eqv ops : forall idx c1 c2 c1', core_eqv c1 c2 -> run_core fixed false idx c1 ops = Some c1' ->
+  exists c2', run_core fixed false idx c2 ops = Some c2' /\ core_eqv c1' c2'.
+Proof.
+  induction ops as [|o r IH]; intros idx c1 c2 c1' He H; cbn [run_core] in *.
+  - injection H as <-. exists c2. split; [reflexivity|exact He].
+  - destruct (apply_core fixed false idx c1 o) as [d1|] eqn:E; [|discriminate].
+    destruct (apply_eqv false idx c1 c2 o d1 He E) as (d2 & E2 & He2). rewrite E2. apply (IH _ d1 d2 c1' He2 H).
+Qed.
+
+Lemma valid_eqv ops : forall idx c1 c2, core_eqv c1 c2 -> valid_run fixed idx c1 ops = valid_run fixed idx c2 ops.
+Proof.
+  induction ops as [|o r IH]; intros idx c1 c2 He; [reflexivity|]. cbn [valid_run]. rewrite (pre_eqv c1 c2 o He).
+  destruct (apply_core fixed false idx c1 o) as [d1|] eqn:E.
+  - destruct (apply_eqv false idx c1 c2 o d1 He E) as (d2 & E2 & He2). rewrite E2. rewrite (IH _ d1 d2 He2). reflexivity.
+  - destruct (apply_core fixed false idx c2 o) as [d2|] eqn:E2; [|reflexivity].
+    assert (He' : core_eqv c2 c1).
+    { destruct He as [Hs Hg]. split; [symmetry; exact Hs|]. clear -Hg. induction Hg as [|a b r1 r2 (H1 & H2 & H3) _ IH']; constructor; [|exact IH'].
+      split; [symmetry; exact H1|split; symmetry; assumption]. }
+    destruct (apply_eqv false idx c2 c1 o d2 He' E2) as (d1 & E1 & _). congruence.
+Qed.
+
+(* ------------------------------------------------------------------ snapshot and restore *)
+Lemma restore_part_id p : part_ok p -> restore_part fixed p = p.
+Proof. intros [H1 H2]. destruct p. cbn in *. subst. reflexivity. Qed.
+
+Lemma map_restore_id ps : Forall part_ok ps -> map (restore_part fixed) ps = ps.
+Proof. induction 1 as [|p t Hp _ IH]; [reflexivity|]. cbn [map]. rewrite restore_part_id by exact Hp. rewrite IH. reflexivity. Qed.
+
+Lemma restore_streams_id S : (forall k st, In (k, st) S -> st_tomb st = false /\ Forall part_ok (st_parts st)) ->
+  map (fun kv => (fst kv, mkStrm (map (restore_part fixed) (snd kv)) false)) (map (fun kv : sid * strm => (fst kv, st_parts (snd kv))) S) = S.
+Proof.
+  intros H. induction S as [|[k st] r IH]; [reflexivity|]. cbn [map fst snd].
+  rewrite IH by (intros k0 st0 Hin; apply (H k0); right; exact Hin). f_equal.
+  destruct (H k st (or_introl eq_refl)) as [Ht Hp]. destruct st as [ps tb]. cbn in *. subst tb. f_equal. f_equal.
+  apply map_restore_id. exact Hp.
+Qed.
+
+Lemma restore_members np ms : forall acc, g_epoch acc = 0%N -> (forall m, In m ms -> ssorted (m_streams m)) ->
+  let g := fold_left (fun g mb => match add_member np g (m_id mb) (m_streams mb) 0%N with GOk g' => g' | _ => g end) ms acc in
+  g_members g = g_members acc ++ ms /\ g_epoch g = 0%N.
+Proof.
+  induction ms as [|m r IH]; intros acc He Hs; cbn [fold_left]; [rewrite app_nil_r; split; [reflexivity|exact He]|].
+  assert (Hok : exists g1, add_member np acc (m_id m) (m_streams m) 0%N = GOk g1).
+  { unfold add_member. rewrite He. cbn [N.ltb N.compare]. eexists. reflexivity. }
+  destruct Hok as (g1 & E1). rewrite E1. destruct (add_member_shape _ _ _ _ _ _ E1) as [Hm1 He1].
+  destruct (IH g1 He1 (fun m0 H0 => Hs m0 (or_intror H0))) as [H1 H2]. split; [|exact H2].
+  rewrite H1, Hm1, <- app_assoc. cbn [app]. f_equal. f_equal.
+  rewrite normal_id by (apply Hs; left; reflexivity). destruct m. reflexivity.
+Qed.
+
+(* Restoring a snapshot of a live state gives back its streams and partitions exactly, and its
+   groups with the same coordinator, members and epoch (the assignments are recomputed). *)
+Lemma restore_eqv L : NoTomb L -> PInv L -> MInv L -> core_eqv (restore_core fixed (take_snapshot L)) L.
+Proof.
+  intros Hn Hp Hm. unfold restore_core, take_snapshot. cbn [sn_streams sn_groups].
+  rewrite restore_streams_id by (intros k st Hin; split; [apply (Hn k); exact Hin|apply (Hp k); exact Hin]).
+  split; [reflexivity|]. cbn [c_groups]. rewrite map_map.
+  assert (G : forall gs, (forall g gr m, In (g, gr) gs -> In m (g_members (gr_g gr)) -> ssorted (m_streams m)) ->
+              Forall2 geq (map (fun kv => (fst kv, restore_group (nparts_of (c_streams L))
+                                                    (mkSnapGroup (gr_coord (snd kv)) (g_epoch (gr_g (snd kv))) (g_members (gr_g (snd kv)))))) gs) gs).
+  { induction gs as [|[g gr] r IH]; intros H; [constructor|]. cbn [map fst snd]. constructor; [|apply IH; intros g0 gr0 m Hin; apply (H g0); right; exact Hin].
+    split; [reflexivity|]. cbn [snd]. unfold restore_group. cbn [sg_coord sg_epoch sg_members gr_coord gr_g]. split; [reflexivity|].
+    destruct (restore_members (nparts_of (c_streams L)) (g_members (gr_g gr)) new_group eq_refl (fun m Hi => H g gr m (or_introl eq_refl) Hi)) as [H1 _].
+    unfold gp. cbn [g_members g_epoch]. rewrite H1. reflexivity. }
+  apply G. exact Hm.
+Qed.
+
+(* ------------------------------------------------------------------ runs in two parts *)
+Lemma run_app r a : forall idx c b, run_core fixed r idx c (a ++ b) =
+  match run_core fixed r idx c a with Some c' => run_core fixed r (idx + N.of_nat (length a)) c' b | None => None end.
+Proof.
+  induction a as [|o t IH]; intros idx c b; cbn [app run_core length]; [rewrite N.add_0_r; reflexivity|].
+  destruct (apply_core fixed r idx c o); [|reflexivity]. rewrite IH. replace (idx + 1 + N.of_nat (length t))%N with (idx + N.of_nat (S (length t)))%N by lia. reflexivity.
+Qed.
+
+Lemma valid_app a : forall idx c b, valid_run fixed idx c (a ++ b) = true ->
+  valid_run fixed idx c a = true /\ forall c', run_core fixed false idx c a = Some c' -> valid_run fixed (idx + N.of_nat (length a)) c' b = true.
+Proof.
+  induction a as [|o t IH]; intros idx c b H; cbn [app valid_run run_core length] in *.
+  - split; [reflexivity|]. intros c' [= <-]. rewrite N.add_0_r. exact H.
+  - apply andb_true_iff in H. destruct H as [Hp H]. rewrite Hp. destruct (apply_core fixed false idx c o) as [d|]; [|discriminate].
+    destruct (IH _ d b H) as [H1 H2]. split; [exact H1|]. intros c' Hc. replace (idx + N.of_nat (S (length t)))%N with (idx + 1 + N.of_nat (length t))%N by lia. apply H2. exact Hc.
+Qed.
+
+Lemma run_invs r ops : forall idx c c', PInv c -> MInv c -> run_core fixed r idx c ops = Some c' -> PInv c' /\ MInv c'.
+Proof.
+  induction ops as [|o t IH]; intros idx c c' Hp Hm H; cbn [run_core] in H; [injection H as <-; split; assumption|].
+  destruct (apply_core fixed r idx c o) as [d|] eqn:E; [|discriminate].
+  apply (IH _ d c' (PInv_step r idx c o d Hp E) (MInv_step r idx c o d Hm E) H).
+Qed.
+
+Lemma RInv_strip idx P : RInv idx P -> RInv idx (cstrip P) /\ NoTomb (cstrip P).
+Proof.
+  intros (Hw & Hwg & Hi). split; [split; [apply WF_filter; exact Hw|split; [exact Hwg|]]|].
+  - intros g gr Hin. destruct (Hi g gr Hin) as [He Ha]. split; [exact He|]. intros s Hs. destruct (Ha s Hs) as (st & E & Ht).
+    exists st. cbn [cstrip c_streams]. rewrite alookup_strip by exact Hw. rewrite E, Ht. split; reflexivity.
+  - intros k st Hin. cbn [cstrip c_streams] in Hin. apply filter_In in Hin. destruct Hin as [_ H]. unfold nt in H. cbn [snd] in H.
+    destruct (st_tomb st); [discriminate|reflexivity].
+Qed.
+
+Lemma strip_notomb c : NoTomb c -> cstrip c = c.
+Proof.
+  intros H. destruct c as [S G]. unfold cstrip. cbn [c_streams c_groups] in *. f_equal. apply filter_all_true. intros [k st] Hin.
+  unfold nt. cbn [snd]. rewrite (H k st Hin). reflexivity.
+Qed.
+
+Lemma RInv_eqv idx c1 c2 : core_eqv c1 c2 -> RInv idx c2 -> RInv idx c1.
+Proof.
+  intros [Hs Hg] (Hw & Hwg & Hi). split; [rewrite Hs; exact Hw|]. split.
+  - assert (E : keys (c_groups c1) = keys (c_groups c2)).
+    { clear -Hg. unfold keys. induction Hg as [|a b r1 r2 (H1 & _) _ IH]; [reflexivity|]. cbn [map]. f_equal; assumption. }
+    unfold WF. rewrite E. exact Hwg.
+  - intros g gr Hin. assert (Hex : exists gr2, In (g, gr2) (c_groups c2) /\ gp (gr_g gr) = gp (gr_g gr2)).
+    { clear -Hg Hin. induction Hg as [|[k1 a] [k2 b] r1 r2 (H1 & _ & H3) _ IH]; [destruct Hin|]. cbn [fst snd] in *. subst k2.
+      destruct Hin as [[= -> ->]|Hin]; [exists b; split; [left; reflexivity|exact H3]|]. destruct (IH Hin) as (gr2 & H & H'). exists gr2. split; [right; exact H|exact H']. }
+    destruct Hex as (gr2 & Hin2 & Hgp). apply gp_eq in Hgp. destruct Hgp as [Hm He]. destruct (Hi g gr2 Hin2) as [H1 H2].
+    split; [rewrite He; exact H1|]. intros s (m & Hmm & Hss). rewrite Hs. apply H2. exists m. split; [rewrite <- Hm; exact Hmm|exact Hss].
+Qed.
+
+(* A server rebuilt from the snapshot taken after the first i operations plus a replay of the
+   rest, followed by finishedRecovery, has the metadata of the live servers: the same streams,
+   partitions, replicas, ISR, leaders, epochs, paused and read-only flags, and the same groups
+   with the same coordinator, members and epoch. *)
+Theorem snapshot_restart ops i Li Ln : (i <= length ops)%nat ->
+  valid_run fixed 1 empty_core ops = true ->
+  run_core fixed false 1 empty_core (firstn i ops) = Some Li ->
+  run_core fixed false 1 empty_core ops = Some Ln ->
+  exists P, run_core fixed true (N.of_nat i + 1) (restore_core fixed (take_snapshot Li)) (skipn i ops) = Some P /\
+            core_eqv (finish_core (N.of_nat (length ops)) P) Ln.
+Proof.
+  intros Hi Hv HLi HLn. rewrite <- (firstn_skipn i ops) in Hv, HLn.
+  assert (Hlen : length (firstn i ops) = i) by (apply firstn_length_le; exact Hi).
+  destruct (valid_app _ _ _ _ Hv) as [Hv1 Hv2]. specialize (Hv2 Li HLi). rewrite Hlen in Hv2.
+  rewrite run_app, HLi, Hlen in HLn. replace (1 + N.of_nat i)%N with (N.of_nat i + 1)%N in * by lia.
+  (* the live state after i operations and its invariants *)
+  assert (HR0 : RInv 1 empty_core) by (split; [constructor|split; [constructor|intros g gr []]]).
+  change empty_core with (cstrip empty_core) in Hv1, HLi at 1.
+  destruct (run_commutes (firstn i ops) 1%N empty_core Li HR0 Hv1 HLi) as (Pi & _ & Hsi & HRi). rewrite Hlen in HRi.
+  replace (1 + N.of_nat i)%N with (N.of_nat i + 1)%N in HRi by lia.
+  destruct (RInv_strip _ _ HRi) as [HRLi HnLi]. rewrite Hsi in HRLi, HnLi.
+  assert (HPM : PInv Li /\ MInv Li).
+  { apply (run_invs false (firstn i ops) 1%N (cstrip empty_core) Li); [intros k st []|intros g gr m []|exact HLi]. }
+  destruct HPM as [HpLi HmLi].
+  (* the restored state agrees with it up to assignments *)
+  pose proof (restore_eqv Li HnLi HpLi HmLi) as He. set (R := restore_core fixed (take_snapshot Li)) in *.
+  assert (HnR : NoTomb R) by (intros k st Hin; destruct He as [Hs _]; rewrite Hs in Hin; apply (HnLi k); exact Hin).
+  assert (HRR : RInv (N.of_nat i + 1) R) by (apply (RInv_eqv _ R Li He HRLi)).
+  (* live continuation from the restored state *)
+  assert (He' : core_eqv Li R).
+  { destruct He as [Hs Hg]. split; [symmetry; exact Hs|]. clear -Hg. induction Hg as [|a b r1 r2 (H1 & H2 & H3) _ IH']; constructor; [|exact IH'].
+    split; [symmetry; exact H1|split; symmetry; assumption]. }
+  destruct (run_eqv (skipn i ops) _ Li R Ln He' HLn) as (Ln' & HLn' & Heq).
+  rewrite (valid_eqv (skipn i ops) _ Li R He') in Hv2.
+  rewrite <- (strip_notomb R HnR) in HLn', Hv2.
+  destruct (run_commutes (skipn i ops) _ R Ln' HRR Hv2 HLn') as (P & HP & HsP & HRP).
+  exists P. split; [exact HP|]. rewrite (finish_is_strip _ _ P HRP), HsP.
+  destruct Heq as [Hs Hg]. split; [symmetry; exact Hs|]. clear -Hg. induction Hg as [|a b r1 r2 (H1 & H2 & H3) _ IH']; constructor; [|exact IH'].
+  split; [symmetry; exact H1|split; symmetry; assumption].
+Qed.
